@@ -1,5 +1,5 @@
 (* C04 — property theorems only (the wrapper model is coq/C03/Model.v, the kernels coq/C04/Model.v). *)
-From V Require Import Common.NumFacts C03.Model C03.Proofs C04.Model C04.Proofs.
+From V Require Import Common.NumFacts C03.Model C03.Proofs C04.KBase C04.Model C04.Gen_kernels C04.Proofs.
 Open Scope Q_scope.
 
 (* T / P equal the specified ones in every branch that returns normally, for every oracle.
@@ -63,6 +63,34 @@ Theorem C04_PV_flows_from_last_eval : forall orc c isT V0 m m',
 Proof. exact PV_flows_lemma. Qed.
 Print Assumptions C04_PV_flows_from_last_eval.
 
+(* ... hence, when flexsolve returns the last point it evaluated, the flows written are those evaluated AT the returned
+   T (P).  PRECONDITION that excludes the "lucky guess": [pts <> []] and the returned value is the last evaluation point.
+   flexsolve returns a bound without evaluating only when |V_bubble - V| < V_tol = 1e-6 (or |V_dew - V| < 1e-6; on the dew
+   side the flows are consistent anyway).  Inside the quantifier of the property (V in (0.02, 0.98), every mole fraction
+   >= 0.02, one homologous family) V_bubble is the vapour fraction the solver finds AT the bubble point (~ 0), so
+   V - V_bubble >= 0.02 - solver error >> 1e-6: the excluded case lies outside the quantifier (it needs V < ~1e-6). *)
+Theorem C04_PV_flows_at_returned_point : forall orc c isT V0 m m' pts,
+  let V := adj_V c V0 in
+  let k := mk m in
+  let Vb := qsum (clipv (o_v orc (k + 2)%nat) (molv c)) / Fvle c in
+  let Vd := qsum (clipv (o_v orc (k + 3)%nat) (molv c)) / Fvle c in
+  ~ V == 1 -> ~ V == 0 -> Vb <= V -> V <= Vd ->
+  fst (o_iq orc (k + 4)%nat) = pts -> pts <> [] -> snd (o_iq orc (k + 4)%nat) = last pts 0 ->
+  set_XV_multi orc c isT V0 m = VOk m' ->
+  ms m' = set_flows c (clipv (o_v orc (k + 4 + length pts)%nat) (molv c)) (set_other isT (ms m) (last pts 0)).
+Proof. exact PV_flows_at_returned_point_lemma. Qed.
+Print Assumptions C04_PV_flows_at_returned_point.
+(* the excluded case: the solver returns the bubble bound without evaluating ([pts = []]); the flows written are those of
+   the dew-side evaluation (all vapour here) although V = 1/2 was specified and T is the bubble temperature *)
+Definition cf2v := mkcfg [KVle; KVle] [0; 0] [18; 46].
+Definition orc_lucky := mkorc 0 (fun _ => 0) (fun _ => 0) 0 0 (fun _ => (300, [1#2; 1#2])) (fun _ => (400, [1#2; 1#2]))
+  (fun t => match t with 2%nat => [0; 0] | _ => [1; 1] end) (fun _ => ([], 300))
+  (fun _ _ _ _ => 0) (fun _ _ _ _ _ => 0) (fun _ _ _ _ _ => 0).
+Example C04_PV_lucky_guess_excluded :
+  vle cf2v orc_lucky (SpPV 101325 (1#2)) (mkst [1; 1] [0; 0] [] 298 101325)
+  = VOk (mkst [1 - 1; 1 - 1] [1; 1] [] 300 101325).
+Proof. vm_compute. reflexivity. Qed.
+
 (* the vaporise / condense correction: with H linear in the flows (HL, HG additive and homogeneous) either the
    written flows reproduce the specified H exactly at the bracketed T (0 < f < 1), or T is what
    xsolve_T_at_HP returned for the final flows and the specified H (f in {0, 1}: the solve contract).
@@ -98,6 +126,19 @@ Theorem C04_PH_exact_linear : forall orc P HL HG HR,
 Proof. exact PH_exact_linear_lemma. Qed.
 Print Assumptions C04_PH_exact_linear.
 
+(* PRECONDITION of the enthalpy clause made explicit: [setup cf st = SOk _ _] -- at least one volatile chemical is present
+   (the quantifier of the property: "compositions of 1-5 volatile chemicals with or without ... gas and ... solute").
+   Without any volatile chemical _setup raises NoEquilibrium, VLE.__call__ stores P and returns: no oracle is consulted,
+   T stays and the specified H is not applied.  (The [N == 0] branches of set_PH / set_PS are unreachable.) *)
+Theorem C04_PH_no_volatile : forall cf orc P H st s, setup cf st = SNoEq s ->
+  vle cf orc (SpPH P H) st = VOk (with_P s P) /\ sT (with_P s P) = sT st.
+Proof. exact PH_no_volatile_lemma. Qed.
+Print Assumptions C04_PH_no_volatile.
+Example C04_PH_no_volatile_excluded :     (* only a liquid-locked and a gas-locked chemical: H = 12345 is ignored *)
+  vle (mkcfg [KHeavy; KLight] [0; 0] [180; 28]) orc_lucky (SpPH 101325 12345) (mkst [1; 1#2] [1#4; 2] [] 298 200000)
+  = VOk (mkst [1 + (1#4); 0] [0; (1#2) + 2] [] 298 101325).
+Proof. vm_compute. reflexivity. Qed.
+
 (* the linearity hypotheses are satisfiable: h_l = 1, h_g = 3 per mole *)
 Example C04_PH_linear_nonvacuous :
   let HL := fun (_ : Q) (a : vec) => qsum a in
@@ -117,44 +158,54 @@ Proof.
   - rewrite qsum_sub by assumption. ring.
 Qed.
 
+(* the kernels as translated from the current source of /repo by tr/C04_kernels.py (regenerated on every run) are the
+   functions the theorems below are about *)
+Theorem C04_generated_kernels_agree :
+  g_compute_phase_fraction_2N = rr2v /\ g_xy = xyn /\ g_xVlogK_iter_2n = iter2n /\ g_xVlogK_iter = itern.
+Proof. exact generated_kernels_agree. Qed.
+Print Assumptions C04_generated_kernels_agree.
+
 (* an exact fixed point of xVlogK_iter_2n (exp, log as any functions with exp (log k) = k for k >= 1e-16):
-   K_i = pcf_i Psat_i gamma_i(x) / (phi_i(y) P) evaluated at the normalised x and y = normalise(K x) (iso-fugacity),
-   V is the closed-form Rachford-Rice root for these K, x_i = z_i / (1 + V (K_i - 1)), and x sums to 1 when z does *)
-Theorem C04_fix_iso_2n : forall E L G Ph z1 z2 w w',
+   K = clip(pcf Psat / P * gamma(x^) / phi(y^)) at the normalised x^ and y^ = normalise(K x^) (iso-fugacity),
+   V is the closed-form Rachford-Rice root for these K (so the Rachford-Rice equation holds),
+   x_i = z_i / (1 + V (K_i - 1)), and x sums to 1 when z does *)
+Theorem C04_fix_iso_2n : forall E L fg fp w pcf T P z w',
   (forall a b, a == b -> E a == E b) -> (forall k, c_1e16 <= k -> E (L k) == k) ->
-  iter2n E L G Ph z1 z2 w = Ok w' -> w2_eq w' w ->
-  exists x1 x2 y1 y2 K1 K2 V,
-    xy2 (wx1 w) (wx2 w) (E (wl1 w)) (E (wl2 w)) = Ok ((x1, x2), (y1, y2)) /\
-    K1 = clipK (fst (G x1 x2) / fst (Ph y1 y2)) /\ K2 = clipK (snd (G x1 x2) / snd (Ph y1 y2)) /\
-    E (wl1 w) == K1 /\ E (wl2 w) == K2 /\
-    rr2 z1 z2 K1 K2 = Ok V /\ wV w == V /\ rr [z1; z2] [K1; K2] V == 0 /\
-    wx1 w == z1 / (1 + V * (K1 - 1)) /\ wx2 w == z2 / (1 + V * (K2 - 1)) /\
-    (z1 + z2 == 1 -> wx1 w + wx2 w == 1).
+  iter2n E L fg fp w pcf T P z = Ok w' -> wn_eq w' w ->
+  exists x y Ks V,
+    xyn (nx w) (map E (nl w)) = Ok (x, y) /\
+    Ks = new_Ks fg fp pcf x y T P /\
+    veq (map E (nl w)) Ks /\
+    rr2v z Ks = Ok V /\ nV w == V /\ rr z Ks V == 0 /\
+    veq (nx w) (map2 Qdiv z (rr_den V Ks)) /\
+    (qsum z == 1 -> qsum (nx w) == 1).
 Proof. exact fix_iso_2n_lemma. Qed.
 Print Assumptions C04_fix_iso_2n.
 
 (* the same for xVlogK_iter (n components, non-partitioning fractions): iso-fugacity and the x relation hold at an exact
    fixed point; V is whatever solve_phase_fraction_Rashford_Rice returned for these K (its residual is the solver's contract) *)
-Theorem C04_fix_iso_n : forall E L G Ph rrsolve z w w',
+Theorem C04_fix_iso_n : forall E L fg fp rrsolve w pcf T P z zl zh w',
   (forall a b, a == b -> E a == E b) -> (forall k, c_1e16 <= k -> E (L k) == k) ->
-  itern E L G Ph rrsolve z w = Ok w' -> wn_eq w' w ->
+  itern E L fg fp rrsolve w pcf T P z zl zh = Ok w' -> wn_eq w' w ->
   exists x y Ks V,
     xyn (nx w) (map E (nl w)) = Ok (x, y) /\
-    Ks = map clipK (map2 Qdiv (G x) (Ph y)) /\
+    Ks = new_Ks fg fp pcf x y T P /\
     veq (map E (nl w)) Ks /\
-    V = rrsolve z Ks (if qltb (nV w) 0 then 0 else if qltb 1 (nV w) then 1 else nV w) /\ nV w == V /\
-    veq (nx w) (map2 (fun zi k => zi / (1 + V * (k - 1))) z Ks) /\
-    (forall i, (i < length Ks)%nat -> ~ 1 + V * (nthq Ks i - 1) == 0).
+    V = rrsolve z Ks (clamp01 (nV w)) zl zh /\ nV w == V /\
+    veq (nx w) (map2 Qdiv z (rr_den V Ks)) /\
+    (forall i, (i < length Ks)%nat -> ~ nthq (rr_den V Ks) i == 0).
 Proof. exact fix_iso_n_lemma. Qed.
 Print Assumptions C04_fix_iso_n.
 
 (* an exact fixed point exists: K = (2, 1/2), z = (1/2, 1/2) gives V = 1/2, x = (1/3, 2/3) *)
 Example C04_fix_iso_nonvacuous :
-  let w := mkw2 (1#3) (2#3) (1#2) 2 (1#2) in
-  exists w', iter2n (fun l => l) (fun k => k) (fun _ _ => (2, 1#2)) (fun _ _ => (1, 1)) (1#2) (1#2) w = Ok w' /\ w2_eq w' w.
+  let w := mkwn [1#3; 2#3] (1#2) [2; 1#2] in
+  exists w', iter2n (fun l => l) (fun k => k) (fun _ _ => [2; 1#2]) (fun _ _ _ => [1; 1]) w [1; 1] 350 101325 [1#2; 1#2] = Ok w'
+             /\ wn_eq w' w.
 Proof.
   cbv zeta. eexists. split; [vm_compute; reflexivity|].
-  unfold w2_eq. cbn [wx1 wx2 wV wl1 wl2]. repeat split; vm_compute; reflexivity.
+  unfold wn_eq, veq. cbn [nx nV nl length]. repeat split; try reflexivity.
+  all: intros i; do 3 (destruct i as [|i]; [vm_compute; reflexivity|]); vm_compute; destruct i; reflexivity.
 Qed.
 
 (* scaling the feed scales the products.  FULL STATEMENT (not proved as a whole; measured on the real code by oracle() in
